@@ -21,14 +21,19 @@ fn run(args: vcore::Args) -> i32 {
     let mut rep = Report::new("C02", tier, "model_checking");
     rep.rule = "BFS over histories of one mutating session (all twelve write kinds, up to 3-4 per transaction) ended by commit / rollback / failed commit / session drop, with an observer session opened before and re-opened after; after every transition every session runs the whole probe bundle; a mismatch is attributed to the single rolled-back or committed operation that explains it".into();
     let all_probes: Vec<usize> = (0..sess::PROBES.len()).collect();
+    // edge-focused layer: parallel edges b->a created by statement and by the direct API (converging second hops of differing visibility)
+    let edge_probes: Vec<usize> = ["label-scan", "expand", "two-hop", "two-hop-any", "get_edge", "neighbors-out", "neighbors-in"].iter().filter_map(|n| sess::PROBES.iter().position(|p| p == n)).collect();
+    let edge_layer = |caps: Vec<usize>, depth: usize| (sess::Model { prop: "C02", sessions: 2, writes: vec![sess::W::CreateEdge, sess::W::CreateEdgeApi, sess::W::DeleteEdge], caps, writers: vec![0], levels: vec![0], probes: edge_probes.clone(), second_commit_first: false, endings: true }, depth);
     let configs: Vec<(sess::Model, usize)> = match tier {
         Tier::Quick => vec![
             (sess::Model { prop: "C02", sessions: 2, writes: sess::ALL_W.to_vec(), caps: vec![3, 2], writers: vec![0], levels: vec![0], probes: all_probes.clone(), second_commit_first: false, endings: true }, 4),
             (sess::Model { prop: "C02", sessions: 2, writes: vec![sess::W::CreateNode, sess::W::InsertTriple, sess::W::DeleteTriple, sess::W::InsertTriple0, sess::W::DeleteTriple1], caps: vec![5, 1], writers: vec![0], levels: vec![0], probes: all_probes.clone(), second_commit_first: true, endings: true }, 5),
+            edge_layer(vec![5, 2], 6),
         ],
         Tier::Thorough => vec![
             (sess::Model { prop: "C02", sessions: 2, writes: sess::ALL_W.to_vec(), caps: vec![5, 2], writers: vec![0], levels: vec![0, 1], probes: all_probes.clone(), second_commit_first: false, endings: true }, 5),
             (sess::Model { prop: "C02", sessions: 3, writes: vec![sess::W::CreateNode, sess::W::SetProp, sess::W::DeleteNodeB, sess::W::InsertTriple, sess::W::DeleteTriple, sess::W::InsertTriple0, sess::W::DeleteTriple1], caps: vec![4, 3, 1], writers: vec![0, 1], levels: vec![0], probes: all_probes.clone(), second_commit_first: true, endings: true }, 5),
+            edge_layer(vec![6, 3], 8),
         ],
     };
     let mut layers = vec![];
